@@ -623,6 +623,35 @@ class Model:
             raise NameError(msg)
         self._ids[name] = ctx
 
+    def _check_new_ids(
+        self,
+        *,
+        names: Iterable[str],
+        ctx: str,
+        replaced: Iterable[str] = (),
+    ) -> None:
+        """Raise what `_insert_id` would raise for any of the names, inserting none.
+
+        Args:
+            names: The identifiers that are about to be inserted, in order.
+            ctx: The context associated with the identifiers.
+            replaced: Identifiers that are about to be removed and thus count as free.
+
+        Raises:
+            KeyError: If a name is "time", which is a protected variable.
+            NameError: If a name already exists or is given twice.
+
+        """
+        taken = set(self._ids).difference(replaced)
+        for name in names:
+            if name == "time":
+                msg = "time is a protected variable for time"
+                raise KeyError(msg)
+            if name in taken:
+                msg = f"Model already contains {ctx} called '{name}'"
+                raise NameError(msg)
+            taken.add(name)
+
     def _remove_id(self, *, name: str) -> None:
         """Remove an ID from the internal dictionary.
 
@@ -1811,6 +1840,11 @@ class Model:
             Self: The current instance with the added surrogate model.
 
         """
+        # Reject the surrogate before any id is inserted
+        self._check_new_ids(
+            names=[name, *(surrogate.outputs if outputs is None else outputs)],
+            ctx="surrogate",
+        )
         self._insert_id(name=name, ctx="surrogate")
 
         # Update surrogate if necessary
